@@ -17,6 +17,12 @@ MANY_ATOM_MOLS = ["CH4", "H6", "H9"]  # > 4 atoms: dynamic,4 loops over atoms ha
 PHASE_HOOK = None
 
 
+def _size(rng, special, hi):
+    """a problem size: half the time one of the hand-picked boundary values, otherwise any
+    value up to hi (partition bugs depend on arithmetic relations between size and team)"""
+    return rng.choice(special) if rng.chance(0.5) else rng.randint(1, hi)
+
+
 def phase():
     """a point between two library calls of a workload (construction | use, feature pass |
     potential pass): the engine may change the OpenMP thread-count setting here, as a user
@@ -141,7 +147,7 @@ def wl_nldf_grad(p):
 def draw_eval_params(rng):
     return {
         "kind": rng.choice(["rbf", "antisym", "spin"]),
-        "n": rng.choice([1, 2, 3, 5, 7, 16, 17, 31, 64, 100, 257]),
+        "n": _size(rng, [1, 2, 3, 5, 7, 16, 17, 31, 64, 100, 257], 300),
         "nctrl": rng.choice([1, 2, 5, 9, 23]),
         "nfeat": rng.choice([1, 2, 3, 6]),
         "dseed": rng.below(10**6),
@@ -191,7 +197,7 @@ def draw_sdmx_params(rng):
         "sseed": rng.below(10**6),
         "mol": rng.choice(TINY_MOLS),
         "basis": rng.choice(["sto-3g", "6-31g", "def2-svp"]),
-        "ngrids": rng.choice([1, 3, 16, 57, 112, 200]),
+        "ngrids": _size(rng, [1, 3, 16, 57, 112, 200], 520),
         "nspin": rng.choice([1, 2]),
         "nset": rng.choice([1, 2]),
         "dseed": rng.below(10**6),
@@ -232,8 +238,8 @@ def wl_sdmx(p):
 def draw_debug_params(rng):
     return {
         "version": rng.choice(["i", "j", "k"]),
-        "n": rng.choice([1, 2, 3, 7, 16, 33, 64]),
-        "m": rng.choice([1, 5, 16, 40, 97]),
+        "n": _size(rng, [1, 2, 3, 7, 16, 33, 64], 80),
+        "m": _size(rng, [1, 5, 16, 40, 97], 120),
         "dseed": rng.below(10**6),
     }
 
@@ -262,7 +268,7 @@ def draw_plan_params(rng):
         "plan_type": rng.choice(["gaussian", "spline"]),
         "formula": rng.choice(["etb", "zexp"]),
         "order": rng.choice(["gq", "qg"]),
-        "n": rng.choice([1, 2, 3, 5, 8, 16, 17, 33, 100, 255]),
+        "n": _size(rng, [1, 2, 3, 5, 8, 16, 17, 33, 100, 255], 300),
         "nalpha": rng.choice([6, 9, 14, 21]),
         "nspin": rng.choice([1, 2]),
         "smooth": rng.chance(0.4),
@@ -311,6 +317,23 @@ def wl_plan_coefs(p):
         c, dc = plan.get_interpolation_coefficients(a, i=i)
         out["p%d" % i] = c
         out["dp%d" % i] = dc
+    # densities over ten orders of magnitude: exponents across the interpolation range, incl.
+    # values whose coefficients underflow to subnormals (arguments always come from the
+    # package's own, range-checked, get_interpolation_arguments)
+    rho2 = _rho_data(nprng, nrho, max(n, 40))
+    fac = 10.0 ** nprng.uniform(-7.0, 2.0, rho2.shape[1])
+    rho2[0] *= fac
+    rho2[1:4] *= fac ** (4.0 / 3)
+    if nrho > 4:
+        rho2[4] *= fac ** (5.0 / 3)
+    for i in ids:
+        try:
+            a2 = plan.get_interpolation_arguments(plan.get_rho_tuple(rho2), i=i)[0]
+            c, dc = plan.get_interpolation_coefficients(a2, i=i)
+        except Exception:
+            continue
+        out["pw%d" % i] = c
+        out["dpw%d" % i] = dc
     f = plan.get_function_to_convolve(rho_tuple)
     out["func"] = f[0]
     out["dfunc"] = np.asarray(f[1])
@@ -406,7 +429,7 @@ def _vp(a):
 
 
 def draw_vxc_params(rng):
-    return {"n": rng.choice([1, 2, 3, 5, 8, 16, 17, 33, 61, 64]), "m": rng.choice([1, 7, 20, 55]), "mul": rng.choice([0.5, 1.0, 2.0]), "dseed": rng.below(10**6)}
+    return {"n": _size(rng, [1, 2, 3, 5, 8, 16, 17, 33, 61, 64], 80), "m": _size(rng, [1, 7, 20, 55], 70), "mul": rng.choice([0.5, 1.0, 2.0]), "dseed": rng.below(10**6)}
 
 
 def wl_vxc_numint(p):
@@ -467,7 +490,7 @@ def wl_vxc_numint(p):
 
 def draw_pbc_params(rng):
     g = rng.choice([2, 3, 4, 5, 6, 8])
-    return {"fftg": [g, rng.choice([2, 3, 4, 5, 7]), g], "num_fft": rng.choice([1, 2, 3]), "dim1": rng.choice([1, 2, 3, 7, 16, 33]), "dim2": rng.choice([1, 2, 5, 16, 40]), "natm": rng.choice([1, 2, 3]), "nao": rng.choice([1, 3, 8]), "ngrids": rng.choice([1, 5, 127, 128, 129, 300]), "dseed": rng.below(10**6)}
+    return {"fftg": [g, rng.choice([2, 3, 4, 5, 7]), g], "num_fft": rng.choice([1, 2, 3]), "dim1": rng.choice([1, 2, 3, 7, 16, 33]), "dim2": rng.choice([1, 2, 5, 16, 40]), "natm": rng.choice([1, 2, 3]), "nao": rng.choice([1, 3, 8]), "ngrids": _size(rng, [1, 5, 127, 128, 129, 300], 400), "dseed": rng.below(10**6)}
 
 
 def wl_pbc_helpers(p):
@@ -600,7 +623,7 @@ WORKLOADS.update(
 
 
 def draw_misc_params(rng):
-    return {"n": rng.choice([1, 2, 3, 7, 16, 33, 100]), "nctrl": rng.choice([1, 4, 9]), "nfeat": rng.choice([1, 3, 5]), "natm": rng.choice([1, 2, 3, 5, 9]), "ngrids": rng.choice([1, 10, 57, 300]), "dseed": rng.below(10**6)}
+    return {"n": _size(rng, [1, 2, 3, 7, 16, 33, 100], 150), "nctrl": rng.choice([1, 4, 9]), "nfeat": rng.choice([1, 3, 5]), "natm": rng.choice([1, 2, 3, 5, 9]), "ngrids": _size(rng, [1, 10, 57, 300], 400), "dseed": rng.below(10**6)}
 
 
 def wl_misc_direct(p):
@@ -657,7 +680,7 @@ WORKLOADS["misc_direct"] = (draw_misc_params, wl_misc_direct)
 def draw_legacy_params(rng):
     return {
         "natm": rng.choice([1, 2, 3, 5, 9]),
-        "ngrids": rng.choice([1, 2, 7, 16, 33, 57, 130]),
+        "ngrids": _size(rng, [1, 2, 7, 16, 33, 57, 130], 260),
         "nrad": rng.choice([2, 3, 5, 8, 17]),
         "lmax": rng.choice([1, 2, 3, 4]),  # the spherical-harmonic recursion needs lmax >= 1
         "nalpha": rng.choice([1, 2, 5]),
